@@ -132,54 +132,7 @@ func c20(p *Prog, r *Report) {
 	}
 
 	// ---- R1
-	{
-		t := p.NewSym(pad).returnTerm()
-		r.Note("%s", "padOriginName returns "+t.String())
-		var total func(n affine) (affine, string)
-		contentOK := false
-		switch {
-		case t.Op == "cat" && len(t.Args) == 2 && t.Args[0].String() == "param:0" && t.Args[1].Op == "make" && len(t.Args[1].Args) == 1:
-			contentOK = true // name || zero-filled make
-			total = func(n affine) (affine, string) {
-				e, why := evalAffine(t.Args[1].Args[0], n)
-				if why != "" {
-					return affine{}, why
-				}
-				if e.A.Sign() < 0 || e.B.Sign() < 0 {
-					return affine{}, "padding length " + e.String() + " can be negative (make panics)"
-				}
-				return affine{new(big.Int).Add(n.A, e.A), new(big.Int).Add(n.B, e.B)}, ""
-			}
-		case t.Op == "make" && len(t.Args) == 2 && t.Args[1].String() == "copy(param:0)":
-			contentOK = true // zero-filled buffer with the name copied to its head; total >= n checked below
-			total = func(n affine) (affine, string) {
-				l, why := evalAffine(t.Args[0], n)
-				if why != "" {
-					return affine{}, why
-				}
-				d := affine{new(big.Int).Sub(l.A, n.A), new(big.Int).Sub(l.B, n.B)}
-				if d.A.Sign() < 0 || d.B.Sign() < 0 {
-					return affine{}, "buffer length " + l.String() + " can be shorter than the name (copy truncates)"
-				}
-				return l, ""
-			}
-		}
-		r.Check(contentOK, R1, "padOriginName content: the name followed by zero bytes only", p.Pos(pad.Pos()), "name || zero-filled buffer", "returned value "+clip(t.String(), 300)+" is not the name followed by a zero-filled buffer")
-		if contentOK {
-			// n = 0
-			l, why := total(affC(0))
-			r.Check(why == "" && l.A.Sign() == 0 && l.B.Cmp(big.NewInt(32)) == 0, R1, "n = 0: padded length 32 (one block for the empty name)", p.Pos(pad.Pos()), "32", "padded length for the empty name is "+l.String()+" "+why+", required 32")
-			for res := int64(1); res <= 32; res++ {
-				l, why := total(affine{big.NewInt(32), big.NewInt(res)})
-				ok := why == "" && l.A.Cmp(big.NewInt(32)) == 0 && l.B.Cmp(big.NewInt(32)) == 0
-				got := ""
-				if why == "" {
-					got = l.String()
-				}
-				r.Check(ok, R1, fmt.Sprintf("n = 32q+%d: padded length 32q+32", res), p.Pos(pad.Pos()), "32q+32", fmt.Sprintf("padded length for names of length 32q+%d is %s %s, required 32q+32 (the number of 32-byte blocks needed)", res, got, why))
-			}
-		}
-	}
+	c20Pad(p, r, R1, pad)
 
 	// ---- R2
 	c20Unpad(p, r, R2, unpad)
@@ -543,4 +496,54 @@ func c20Unpad(p *Prog, r *Report, rule string, fn *ssa.Function) {
 func isZeroConst(v ssa.Value) bool {
 	c, ok := v.(*ssa.Const)
 	return ok && c.Value != nil && c.Value.ExactString() == "0"
+}
+
+// c20Pad: padOriginName = name || zeros with total length 32*max(1, ceil(n/32)).
+func c20Pad(p *Prog, r *Report, R1 string, pad *ssa.Function) {
+	t := p.NewSym(pad).returnTerm()
+	r.Note("%s", "padOriginName returns "+t.String())
+	var total func(n affine) (affine, string)
+	contentOK := false
+	switch {
+	case t.Op == "cat" && len(t.Args) == 2 && t.Args[0].String() == "param:0" && t.Args[1].Op == "make" && len(t.Args[1].Args) == 1:
+		contentOK = true // name || zero-filled make
+		total = func(n affine) (affine, string) {
+			e, why := evalAffine(t.Args[1].Args[0], n)
+			if why != "" {
+				return affine{}, why
+			}
+			if e.A.Sign() < 0 || e.B.Sign() < 0 {
+				return affine{}, "padding length " + e.String() + " can be negative (make panics)"
+			}
+			return affine{new(big.Int).Add(n.A, e.A), new(big.Int).Add(n.B, e.B)}, ""
+		}
+	case t.Op == "make" && len(t.Args) == 2 && t.Args[1].String() == "copy(param:0)":
+		contentOK = true // zero-filled buffer with the name copied to its head; total >= n checked below
+		total = func(n affine) (affine, string) {
+			l, why := evalAffine(t.Args[0], n)
+			if why != "" {
+				return affine{}, why
+			}
+			d := affine{new(big.Int).Sub(l.A, n.A), new(big.Int).Sub(l.B, n.B)}
+			if d.A.Sign() < 0 || d.B.Sign() < 0 {
+				return affine{}, "buffer length " + l.String() + " can be shorter than the name (copy truncates)"
+			}
+			return l, ""
+		}
+	}
+	r.Check(contentOK, R1, "padOriginName content: the name followed by zero bytes only", p.Pos(pad.Pos()), "name || zero-filled buffer", "returned value "+clip(t.String(), 300)+" is not the name followed by a zero-filled buffer")
+	if contentOK {
+		// n = 0
+		l, why := total(affC(0))
+		r.Check(why == "" && l.A.Sign() == 0 && l.B.Cmp(big.NewInt(32)) == 0, R1, "n = 0: padded length 32 (one block for the empty name)", p.Pos(pad.Pos()), "32", "padded length for the empty name is "+l.String()+" "+why+", required 32")
+		for res := int64(1); res <= 32; res++ {
+			l, why := total(affine{big.NewInt(32), big.NewInt(res)})
+			ok := why == "" && l.A.Cmp(big.NewInt(32)) == 0 && l.B.Cmp(big.NewInt(32)) == 0
+			got := ""
+			if why == "" {
+				got = l.String()
+			}
+			r.Check(ok, R1, fmt.Sprintf("n = 32q+%d: padded length 32q+32", res), p.Pos(pad.Pos()), "32q+32", fmt.Sprintf("padded length for names of length 32q+%d is %s %s, required 32q+32 (the number of 32-byte blocks needed)", res, got, why))
+		}
+	}
 }
